@@ -51,7 +51,8 @@ CLAIMED = {
           "the lexer's tokens (Syntax/StmtParser.v, token numbering and operator maps regenerated from the Go source on every "
           "run by tools/gen_tokentable.py): proved that lexer errors refuse the input, that acceptance means nodes followed by "
           "the end of input, and that every well-formed written statement sequence is accepted and read as the dialogue it "
-          "stands for (C05_written_statements_are_accepted, for all sufficient fuel); family stmtparse compares this model "
+          "stands for (C05_written_statements_are_accepted), lifted to whole scripts with the model's own fuel proved "
+          "sufficient (C05_every_written_script_is_loaded: from_reader 0 (p_script tags ns) = Some (map mean_node ns)); family stmtparse compares this model "
           "with tree.FromReader on the real lexer's tokens for printed, mutated, cut and soup inputs (accept/refuse and the "
           "dialogue built), with an independent expectation for printed programs.",
   "design_ref": "DESIGN.md section 5, C05",
@@ -70,7 +71,8 @@ CLAIMED = {
           "statement sequence - lines, option groups, if/elseif/else, set, declare, call, jump, generic commands, with an "
           "INDENT ... DEDENT block around any run of statements at any depth - is read back as the dialogue it stands for, so "
           "whether and how far a body is indented does not matter to the parser "
-          "(C08_written_statements_are_read_back_whatever_is_indented, C08_an_indented_block_is_the_statements_in_it); "
+          "(C08_written_statements_are_read_back_whatever_is_indented, C08_an_indented_block_is_the_statements_in_it, "
+          "C08_every_written_script_is_loaded for whole scripts with headers and file tags, no fuel premise); "
           "family stmtparse compares the model with tree.FromReader on the real lexer's tokens. Not proved: that the "
           "generated lexer/parser treat CRLF, operator spellings, blanks inside commands and reader splits alike - every "
           "generated program is rendered under 11 layouts and all parsed dialogues and traces are compared; family "
@@ -78,8 +80,9 @@ CLAIMED = {
   "design_ref": "DESIGN.md section 5, C08",
   "note": "The wrapper and parenthesis theorems are axiom-free (closed under the global context); the statement-level "
           "theorems mention the number type and inherit the four standard-library axioms of Flocq's real-number layer. The "
-          "statement-level round trip is at token level: the lexer (text -> tokens) is not modelled, and the fuel bound of "
-          "the model's parse_node is a premise of the node-level theorem (C08_written_node_is_read_back_partial).",
+          "statement-level round trip is at token level: the lexer (text -> tokens) is not modelled; expressions are written by "
+          "any writer the expression parser reads back (a parameter of the theorem; an instance for variable-only expressions "
+          "is given, numerals would need number(string(x)) = x).",
   "technique": "Coq proof on the indentation wrapper model, on the expression-parser model and on the statement-parser model (tables regenerated from source) + metamorphic correspondence check across layouts",
  },
  "C16": {
